@@ -14,7 +14,7 @@ RULE = ("for each scenario (operation x small tree with hostile names x text/JSO
         "every k in 1..N, and (thorough) pairs: call k fails and the j-th following call (j=1..4) fails too; a sample of "
         "kills is repeated with the default thread pool. Oracle = state invariant on the resulting tree: every path the "
         "fault-free run processes still has its bytes at its path, or (kill / failed roll-back only) under a temp sibling "
-        "P.<24 alnum>, or is a complete link/clone/copy of identical bytes (for move: at the target); retained files are "
+        "P.<24 alnum>, or is a complete link/clone/copy of identical bytes (for move: at the target, which is on the same or on another file system); retained files are "
         "untouched; nothing else changed (including files that already were in the move target, which in half of the move "
         "scenarios occupy the destination of one of the files); after a failure without kill the path is restored, a warning is logged and "
         "'Processed N' equals what the tree shows. non-trivial = case whose planned fault fired; a case whose fault "
@@ -93,6 +93,10 @@ def prepare(seed, si, scratch):
     tree.materialise(s.spec, s.backup)
     subprocess.run(["cp", "-a", s.backup, s.troot], check=True)
     s.target = os.path.join(s.d, "moved") if s.op == "move" else None
+    if s.target and (si // len(OPS)) % 4 >= 2:
+        # every other pair of move scenarios moves to another file system: rename fails with EXDEV by itself and the
+        # copy-then-delete path is the normal one
+        s.target = os.path.join(scratch.case_dir("tmpfs"), "moved")
     if s.target:
         os.makedirs(s.target)
     s.blockers = blockers_for(seed, si, s.op, s.spec, s.troot, s.target) if s.target else []
@@ -143,6 +147,19 @@ def fault_specs(N, tier):
     return specs
 
 
+def unrealistic(s, spec):
+    """EPERM (like ENOSYS/EINVAL) from sendfile means 'not supported for these descriptors'; the kernel cannot return
+    it once an earlier sendfile on the same pair has transferred data, and std::fs::copy asserts exactly that
+    (library/std/src/sys/io/kernel_copy). Such a fault is not generated."""
+    kind, k, en, j = spec
+    if kind == "fail" or kind == "pair":
+        if en == errno.EPERM and 2 <= k <= len(s.rec):
+            c, prev = s.rec[k - 1], s.rec[k - 2]
+            if c.op == "sendfile" and prev.op == "sendfile" and prev.p1 == c.p1 and prev.ret > 0:
+                return True
+    return False
+
+
 def run_case(arg):
     seed, si, chunk, nchunks, tier = arg
     scratch = common.Scratch("C05")
@@ -154,6 +171,8 @@ def run_case(arg):
         specs = fault_specs(s.N, tier)
         for idx, spec in enumerate(specs):
             if idx % nchunks != chunk:
+                continue
+            if unrealistic(s, spec):
                 continue
             out.append(_one(s, spec, si))
             restore(s.backup, s.troot, s.target, s.blockers)
@@ -287,7 +306,8 @@ def _one(s, spec, si):
     sig = (s.op, s.fmt, si, kind, k, en, j) if fired else None
     return ok(sig, {"op": s.op, "fault": kind, "k": k, "errno": en, "call": callname} if k < 3 and si < 2 else None,
               {"faults_fired": len(fired), "double_faults_fired": 1 if second_fired else 0, "kills": 1 if killed else 0, "ops": [s.op], "faulted_calls": [callname],
-               "temp_sibling_states": 1 if temps else 0, "runs_with_occupied_move_target": 1 if s.blockers else 0})
+               "temp_sibling_states": 1 if temps else 0, "runs_with_occupied_move_target": 1 if s.blockers else 0,
+               "runs_moving_across_file_systems": 1 if s.target and "/dev/shm" in s.target else 0})
 
 
 def main(tier, seed, cases=None):
